@@ -371,6 +371,14 @@ func RunC13(seed int64, tier, out string) {
 			if len(bs) > 0 {
 				try(k, "truncated", bs[:g.R.Intn(len(bs))])
 			}
+			// the tail of an encoding holds masks, flags and trailing counts
+			for _, b := range []byte{0xff, 0x80, 0x08} {
+				c := append([]byte{}, bs...)
+				if len(c) > 0 {
+					c[len(c)-1-g.R.Intn(min(len(c), 3))] = b
+					try(k, "tail", c)
+				}
+			}
 			// bit flips and field-aware overwrites at (a sample of) every offset
 			for m := 0; m < muts; m++ {
 				c := append([]byte{}, bs...)
@@ -390,6 +398,65 @@ func RunC13(seed int64, tier, out string) {
 					try(k, "overwrite", c)
 				}
 			}
+		}
+	}
+	// every offset of one small encoding per decoder overwritten with 0xff (quick: the small types)
+	for ki := range Kinds {
+		k := &Kinds[ki]
+		small := k.Name == "KTx" || k.Name == "KSub" || k.Name == "KBals" || k.Name == "KWamaps" || k.Name == "KRamap"
+		if tier != "thorough" && !small {
+			continue
+		}
+		enc, _ := k.Gen(g)
+		bs, ok, _ := Encode(enc)
+		if !ok || len(bs) > 1200 {
+			continue
+		}
+		for p := 0; p < len(bs); p++ {
+			c := append([]byte{}, bs...)
+			c[p] = 0xff
+			try(k, "sweep-ff", c)
+		}
+	}
+	// encodings that DECLARE more than the documented limits and carry a complete body
+	zeros := func(n int) []byte { return make([]byte, n) }
+	u16 := func(n int) []byte { return []byte{byte(n), byte(n >> 8)} }
+	kind := func(name string) *Kind {
+		for i := range Kinds {
+			if Kinds[i].Name == name {
+				return &Kinds[i]
+			}
+		}
+		panic(name)
+	}
+	cat := func(parts ...[]byte) []byte { return bytes.Join(parts, nil) }
+	asset := cat([]byte{0, 0, 0, 0}, u16(8), zeros(8)) // backend 0, 8-byte asset id
+	rep := func(b []byte, n int) []byte { return bytes.Repeat(b, n) }
+	over := []struct {
+		k     string
+		class string
+		bs    []byte
+	}{
+		{"KBals", "over-limit/parts-1025", cat(u16(1), u16(1025), zeros(1025))},
+		{"KBals", "over-limit/assets-1025", cat(u16(1025), u16(1), zeros(1025))},
+		{"KBals", "at-limit/parts-1024", cat(u16(1), u16(1024), zeros(1024))},
+		{"KBals", "over-limit/bigint-129", cat(u16(1), u16(1), []byte{129}, rep([]byte{1}, 129))},
+		{"KBals", "at-limit/bigint-128", cat(u16(1), u16(1), []byte{128}, rep([]byte{1}, 128))},
+		{"KSub", "over-limit/bals-1025", cat(zeros(32), u16(1025), zeros(1025), u16(0))},
+		{"KSub", "at-limit/bals-1024", cat(zeros(32), u16(1024), zeros(1024), u16(0))},
+		{"KAlloc", "over-limit/assets-1025", cat(u16(1025), u16(1), u16(0), rep(asset, 1025), u16(1025), u16(1), zeros(1025))},
+		{"KAlloc", "over-limit/parts-1025", cat(u16(1), u16(1025), u16(0), asset, u16(1), u16(1025), zeros(1025))},
+		{"KAlloc", "over-limit/parts-1025-header-lies", cat(u16(1), u16(2), u16(0), asset, u16(1), u16(1025), zeros(1025))},
+		{"KAlloc", "over-limit/locked-1025", cat(u16(1), u16(1), u16(1025), asset, u16(1), u16(1), zeros(1), rep(cat(zeros(32), u16(1), zeros(1), u16(0)), 1025))},
+	}
+	for _, o := range over {
+		k := kind(o.k)
+		before := len(res.CaseIndex)
+		try(k, o.class, o.bs)
+		out, _, _, _ := Decode(k, o.bs)
+		if strings.HasPrefix(o.class, "over-limit") && out == "ok" {
+			res.Fail(hx.Failure{Site: k.Name + ".Decode", InputClass: o.class, What: "an encoding that declares more than the documented limit was accepted", Case: before,
+				Replay: map[string]string{"kind": k.Name, "bytes": fmt.Sprintf("%x", o.bs)}})
 		}
 	}
 	w.flush()
